@@ -212,7 +212,7 @@ func c14(w *core.World, r *core.Report) {
 			n++
 			bounded, journal := false, false
 			for _, fct := range core.FactsAt(c.Block()) {
-				cmp, ok := core.AsCmp(fct.Cond, fct.Val)
+				cmp, ok := core.FactCmp(fct)
 				if ok && cmp.Op == token.LEQ && fieldNameOfLoad(cmp.X) == "UnitSeq" && fieldNameOfLoad(cmp.Y) == "UnitSeq" {
 					bounded = true
 				}
@@ -411,36 +411,89 @@ func ruleContiguousAdvance(w *core.World, r *core.Report, name string) {
 			}
 		}
 	}
-	if next == nil {
-		r.Undecided(cons, f.Pos(), "no loop-carried next sequence number found")
-		return
+	// or no variable at all: every look-up is keyed by <frontier>.UnitSeq + 1 read afresh
+	isNextKey := func(v ssa.Value) bool {
+		if next != nil && v == ssa.Value(next) {
+			return true
+		}
+		b, ok := v.(*ssa.BinOp)
+		if !ok || b.Op != token.ADD || !isConstInt(1)(b.Y) || fieldNameOfLoad(b.X) != "UnitSeq" {
+			return false
+		}
+		ld, ok := core.Unwrap(b.X).(*ssa.UnOp)
+		if !ok {
+			return false
+		}
+		fa, ok := ld.X.(*ssa.FieldAddr)
+		return ok && strings.HasSuffix(core.TypeName(fa.X.Type()), "BisyncFrontierSnapshot")
 	}
-	okInit, okStep := false, false
-	foundAt := func(b *ssa.BasicBlock) bool {
-		for _, fct := range core.FactsAt(b) {
-			if !fct.Val {
-				continue
-			}
-			e, ok := core.Unwrap(fct.Cond).(*ssa.Extract)
-			if !ok || e.Index != 1 {
-				continue
-			}
-			switch t := e.Tuple.(type) {
+	if next == nil {
+		direct := false
+		for _, in := range core.Instrs(f) {
+			switch t := in.(type) {
 			case *ssa.Lookup:
-				if t.Index == ssa.Value(next) {
-					return true
+				if t.CommaOk && isNextKey(t.Index) {
+					direct = true
 				}
 			case *ssa.Call:
 				for _, a := range t.Call.Args {
-					if a == ssa.Value(next) {
-						return true
+					if isNextKey(a) && t.Call.Signature().Results().Len() == 2 {
+						direct = true
 					}
+				}
+			}
+		}
+		if !direct {
+			r.Undecided(cons, f.Pos(), "no next sequence number found (neither a loop variable starting at seq+1 nor look-ups keyed by seq+1)")
+			return
+		}
+	}
+	okInit, okStep := next == nil, next == nil
+	// "the record for the next number was found": the ok of a look-up keyed by it (or, in a
+	// `for rec, ok := get(k); ok; rec, ok = get(k)` loop, the variable fed by such look-ups only)
+	var isFound func(v ssa.Value, depth int) bool
+	isFound = func(v ssa.Value, depth int) bool {
+		v = core.Unwrap(v)
+		if ph, ok := v.(*ssa.Phi); ok && depth < 3 {
+			for _, e := range ph.Edges {
+				if !isFound(e, depth+1) {
+					return false
+				}
+			}
+			return len(ph.Edges) > 0
+		}
+		e, ok := v.(*ssa.Extract)
+		if !ok || e.Index != 1 {
+			return false
+		}
+		switch t := e.Tuple.(type) {
+		case *ssa.Lookup:
+			return isNextKey(t.Index)
+		case *ssa.Call:
+			for _, a := range t.Call.Args {
+				if isNextKey(a) {
+					return true
 				}
 			}
 		}
 		return false
 	}
-	for i, e := range next.Edges {
+	foundAt := func(b *ssa.BasicBlock) bool {
+		for _, fct := range core.FactsAt(b) {
+			if !fct.Val {
+				continue
+			}
+			if isFound(fct.Cond, 0) {
+				return true
+			}
+		}
+		return false
+	}
+	var nextEdges []ssa.Value
+	if next != nil {
+		nextEdges = next.Edges
+	}
+	for i, e := range nextEdges {
 		b, ok := e.(*ssa.BinOp)
 		if !ok || b.Op != token.ADD || !isConstInt(1)(b.Y) {
 			if e != ssa.Value(next) {
@@ -488,21 +541,8 @@ func ruleContiguousAdvance(w *core.World, r *core.Report, name string) {
 			if !fct.Val {
 				continue
 			}
-			e, ok := core.Unwrap(fct.Cond).(*ssa.Extract)
-			if !ok || e.Index != 1 {
-				continue
-			}
-			switch t := e.Tuple.(type) {
-			case *ssa.Lookup:
-				if t.Index == ssa.Value(next) {
-					found = true
-				}
-			case *ssa.Call:
-				for _, a := range t.Call.Args {
-					if a == ssa.Value(next) {
-						found = true
-					}
-				}
+			if isFound(fct.Cond, 0) {
+				found = true
 			}
 		}
 		if !found {
@@ -594,7 +634,7 @@ func ruleConfirmedOnly(w *core.World, r *core.Report) {
 			for _, s := range core.SitesNamed(g, false, "(*syncer.bisyncFrontierCoordinator).onCommitted") {
 				okE := false
 				for _, fct := range core.FactsAt(s.Instr.Block()) {
-					c, ok := core.AsCmp(fct.Cond, fct.Val)
+					c, ok := core.FactCmp(fct)
 					if ok && c.Op == token.EQL && core.IsNilConst(c.Y) && fieldNameOfLoad(c.X) == "err" {
 						okE = true
 					}
